@@ -32,6 +32,11 @@ INFO = {
  'C04b': ("a barrier starts while an earlier reader is still running (the queue's in-flight count is one too low for the rest of its life)", "a finishing dispatch_barrier_sync hands out all of its owned width to queued non-barrier items and then releases a plain dispatch_sync waiter without reserving width for it (needs as many queued readers as the queue is wide: 4094 by default, 2-4 with dispatch_queue_set_width)"),
  'C07b': ("a dispatch_group_wait caller is left behind when the count reaches zero", "three threads on the state word between a leaver's atomic add and its cmpxchg: another thread re-enters, a waiter sets HAS_WAITERS for the new generation, the leaver's retry clears it, the re-entered thread's leave then wakes nobody"),
  'C09b': ("callers that arrive while the initialiser runs are never released", ">= 2 callers parked in the kernel on the same predicate when the initialiser finishes: the gate broadcast wakes one futex waiter instead of all"),
+ 'C19b': ("two overlapping executions of one block object both count as the first completion: dispatch_group_leave is called twice (the library's 'unbalanced leave' crash), a notification may run before/twice", "the same block object executed at least twice with the executions overlapping (concurrent queue) and finishing inside the load/store window of the now non-atomic dbpd_performed increment in _dispatch_block_async_invoke2"),
+ 'C12b': ("dispatch_walltime saturates in the wrong direction: a far-past sum returns FOREVER (a wait on it blocks), a far-future sum returns an elapsed time; not monotone in delta", "a timespec whose seconds sum overflows the ns conversion (|tv_sec + delta/1e9| > ~9.22e9 s) while the nanosecond remainder has the opposite sign of the seconds: the sign flag is no longer refreshed before the overflow exit"),
+ 'C13b': ("dispatch_data_create_subrange does not clamp: the result reports a size near SIZE_MAX / the record walk runs off the array", "non-zero offset and a length within 'offset' of SIZE_MAX (offset + length wraps): the clamp test was rewritten from 'length > size - offset' to 'offset + length > size'"),
+ 'C15b': ("a merge made while the handler's drain is finishing is never delivered (until some later merge/resume/cancel)", "the merger's RMW on ds_pending_data and its load of dq_state both fall between the drainer's last load of ds_pending_data (0) and its unlock cmpxchg, and no further merge follows: merge_data no longer passes MAKE_DIRTY for a drain-locked source"),
+ 'C18b': ("inside a dispatch_sync / dispatch_barrier_sync item dispatch_get_specific misses keys of the submitted-to queue (or returns the lower queue's value) and dispatch_assert_queue(top) aborts", "hierarchy top -> mid -> root, synchronous submission to top while top is free and mid is drain-locked by another thread: the woken waiter runs its item with the frame of the queue it waited on instead of the queue it was submitted to"),
  'C19': ("a dispatch_block_cancel that has returned is undone: testcancel reports 0 and the body runs", "another thread cancels while a timed dispatch_block_wait is in progress and that wait then times out: the time-out path writes back the flag word it read on entry instead of clearing only its own bit"),
 }
 V = '/verif'
